@@ -541,30 +541,35 @@ theorem inv_canon_above {ar : Bool} {db db' : Db} {g : Hash} {n i : Nat} (hi : I
     rw [hH] at hh; rw [hN]; exact hi.hnum h m hd hh
 
 /-- the head moves to a stored block `B` whose parent lies on the current head's chain: afterwards canonical number
-    `m+1` and LastBlock name `B`, every other key the discipline reads is unchanged -/
+    `m+1` and LastBlock name `B`; canonical numbers ABOVE `m+1` may change arbitrarily (since 3f14ce8 `insert` deletes
+    them in the same batch); every other key the discipline reads is unchanged -/
 theorem inv_new_head {ar : Bool} {db db₁ : Db} {g B : Hash} {m : Nat} {hdB : Hdr} (hi : Inv ar V db g)
     (hB : getBlock db B (m + 1) = some hdB) (hP : CanonAgrees db hdB.parent m)
     (hc : get db₁ (.canon (m + 1)) = some (.ref B)) (hl : get db₁ .lastBlock = some (.ref B))
-    (hs : ∀ k, irrelevant k = false → k ≠ .canon (m + 1) → k ≠ .lastBlock → get db₁ k = get db k) : Inv ar V db₁ B := by
+    (hs : ∀ k, irrelevant k = false → (∀ i, m + 1 ≤ i → k ≠ .canon i) → k ≠ .lastBlock → get db₁ k = get db k) :
+    Inv ar V db₁ B := by
+  have nc : ∀ {k : Key}, (∀ n, k ≠ .canon n) → ∀ i, m + 1 ≤ i → k ≠ .canon i := fun h i _ => h i
   have hBk : ∀ h n, getBlock db₁ h n = getBlock db h n := fun h n =>
-    getBlock_congr (hs _ rfl (by intro e; cases e) (by intro e; cases e)) (hs _ rfl (by intro e; cases e) (by intro e; cases e)) n
+    getBlock_congr (hs _ rfl (nc (by intro _ e; cases e)) (by intro e; cases e))
+      (hs _ rfl (nc (by intro _ e; cases e)) (by intro e; cases e)) n
   have hH : ∀ h n, getHeader db₁ h n = getHeader db h n := fun h n =>
-    getHeader_congr (hs _ rfl (by intro e; cases e) (by intro e; cases e)) n
+    getHeader_congr (hs _ rfl (nc (by intro _ e; cases e)) (by intro e; cases e)) n
   have hN : ∀ h, blockNumber db₁ h = blockNumber db h := fun h =>
-    blockNumber_congr (hs _ rfl (by intro e; cases e) (by intro e; cases e))
+    blockNumber_congr (hs _ rfl (nc (by intro _ e; cases e)) (by intro e; cases e))
   have hS : ∀ r, hasState db₁ r = hasState db r := fun r => by
-    unfold hasState; rw [hs _ rfl (by intro e; cases e) (by intro e; cases e)]
-  have hC : ∀ k, k ≠ m + 1 → canonHash db₁ k = canonHash db k := fun k hk =>
-    canonHash_congr (hs _ rfl (by intro e; injection e with e; exact hk e) (by intro e; cases e))
+    unfold hasState; rw [hs _ rfl (nc (by intro _ e; cases e)) (by intro e; cases e)]
+  have hC : ∀ k, k ≤ m → canonHash db₁ k = canonHash db k := fun k hk =>
+    canonHash_congr (hs _ rfl (by intro i hi e; injection e with e; omega) (by intro e; cases e))
   obtain ⟨g0, hd0, hc0, hb0, hs0⟩ := hi.gstate
-  refine ⟨ext_of_same hi.ext hBk hH (fun h hh => by rw [hs _ rfl (by intro e; cases e) (by intro e; cases e)]; exact hh),
+  refine ⟨ext_of_same hi.ext hBk hH (fun h hh => by
+      rw [hs _ rfl (nc (by intro _ e; cases e)) (by intro e; cases e)]; exact hh),
     by unfold headPtr; rw [hl], ⟨m + 1, ?_, ?_⟩, ?_, ⟨g0, hd0, by rw [hC 0 (by omega)]; exact hc0, by rw [hBk]; exact hb0,
     by rw [hS]; exact hs0⟩, ?_, ?_⟩
   · rw [hN]; exact hi.hnum B (m + 1) hdB (getBlock_header hB)
   · refine CanonAgrees.succ (by rw [hBk]; exact hB) (by unfold canonHash; rw [hc]) ?_
-    exact canonAgrees_mono (fun h n hd hb => by rw [hBk]; exact hb) hP (fun k hk => hC k (by omega))
+    exact canonAgrees_mono (fun h n hd hb => by rw [hBk]; exact hb) hP (fun k hk => hC k hk)
   · intro h cs hg c hcm
-    rw [hs _ rfl (by intro e; cases e) (by intro e; cases e)] at hg ⊢
+    rw [hs _ rfl (nc (by intro _ e; cases e)) (by intro e; cases e)] at hg ⊢
     exact hi.closed h cs hg c hcm
   · intro har h n hd hb
     rw [hBk] at hb; rw [hS]; exact hi.arch har h n hd hb
